@@ -827,7 +827,9 @@ impl Exec {
         self.its.clear();
         self.readers.clear();
         self.sps.clear();
-        self.db = None;
+        if self.db.take().is_some() {
+            self.store.mark_done();
+        }
     }
 
     /// Execute one step; returns the events it produced
